@@ -2613,7 +2613,7 @@ expr4:
                      yywarn("Function pointer returning string constant is NOT a function call");
                  $$->r.expr = current_function_context->values_list->r.expr;
                  $$->v.number = FP_FUNCTIONAL + current_function_context->bindable
-                     + (current_function_context->num_parameters << 8);
+                     + (current_function_context->num_parameters * 256); /* may be -1 when the push was refused */
                  pop_function_context();
              }
     |   L_MAPPING_OPEN expr_list3 ']' ')'
